@@ -441,3 +441,48 @@ pub fn tree_byte_classes(t: &VerifRegexTree) -> Vec<u8> {
     }
     reps
 }
+
+/// Is the language empty? (`None` = budget exceeded.)
+pub fn lang_empty(r: &Rx, reps: &[u8], ms: &[usize], max_states: usize) -> Option<bool> {
+    use std::collections::HashSet;
+    let mut states: Vec<Rx> = vec![norm(r)];
+    let mut seen: HashSet<Rx> = HashSet::new();
+    seen.insert(states[0].clone());
+    let mut i = 0;
+    while i < states.len() {
+        let t = states[i].clone();
+        if nullable(&t) {
+            return Some(false);
+        }
+        if states.len() > max_states || size(&t) > 3000 {
+            return None;
+        }
+        for b in reps {
+            for m in ms {
+                let d = deriv(*b, *m, &t);
+                if d != Empty && seen.insert(d.clone()) {
+                    states.push(d);
+                }
+            }
+        }
+        i += 1;
+    }
+    Some(true)
+}
+
+/// Does the tree contain a concatenation one factor of which has an empty language (so that
+/// the automaton built by `RawAutomaton::concat` has dead states)?
+pub fn has_dead_concat(t: &VerifRegexTree, reps: &[u8], ms: &[usize]) -> bool {
+    match t {
+        VerifRegexTree::Single(_) => false,
+        VerifRegexTree::Concat(v) => {
+            (v.len() > 1
+                && v.iter().any(|x| lang_empty(&from_tree(x), reps, ms, 200) == Some(true)))
+                || v.iter().any(|x| has_dead_concat(x, reps, ms))
+        }
+        VerifRegexTree::Union(v) | VerifRegexTree::Inter(v) => {
+            v.iter().any(|x| has_dead_concat(x, reps, ms))
+        }
+        VerifRegexTree::Star(_, r) | VerifRegexTree::Complement(r) => has_dead_concat(r, reps, ms),
+    }
+}
